@@ -17,6 +17,7 @@ struct Op { int kind; int tbl; int val; int arg; };  // kind 0 symbol(tbl,val) 1
 struct Case { int adapt; std::vector<std::vector<uint16_t>> tbls; std::vector<Op> ops; };
 static std::set<uint64_t> g_keys;
 static uint64_t fnv(const std::string &s) { uint64_t h = 1469598103934665603ULL; for (unsigned char ch : s) { h ^= ch; h *= 1099511628211ULL; } return h; }
+static long g_grown = 0;
 static long g_cases = 0, g_nontrivial = 0, g_extreme = 0, g_carry = 0, g_long = 0; static std::vector<std::string> g_samples;
 
 static std::vector<uint16_t> make_cdf(int n, int shape, const std::vector<int> &w) {
@@ -92,7 +93,8 @@ static std::string check(const Case &c, bool count) {
         int nsym = 0; std::vector<int> seen(17, 0); for (auto &o : c.ops) if (o.kind == 0) { nsym++; seen[c.tbls[o.tbl].size() - 1] = 1; }
         int alphs = 0; for (int v : seen) alphs += v;
         bool nt = (c.ops.size() >= 16 && alphs >= 2) || (extreme && nsym > 0) || ff >= 2;
-        if (nt) { g_nontrivial++; g_keys.insert(fnv(dump_txt(c))); } if (extreme) g_extreme++; if (ff >= 2) g_carry++; if (c.ops.size() >= 500) g_long++;
+        if (nt) { g_nontrivial++; g_keys.insert(fnv(dump_txt(c))); }
+        if ((int)bytes.size() > 62025) g_grown++; if (extreme) g_extreme++; if (ff >= 2) g_carry++; if (c.ops.size() >= 500) g_long++;
         if (nt && g_samples.size() < 5 && c.ops.size() < 60) g_samples.push_back(dump(c));
     }
     return err;
@@ -121,12 +123,15 @@ int main(int argc, char **argv) {
         }
         int big = *rc::gen::inRange(0, 10);
         int len = big == 0 ? *rc::gen::resize(100, rc::gen::inRange(0, 5001)) : *rc::gen::resize(100, rc::gen::inRange(0, 120));
+        // one case in ~120: a stream far beyond the coder's initial output buffer (62025 bytes), so that its growth path runs (several doublings)
+        bool huge = *rc::gen::resize(100, rc::gen::inRange(0, 120)) == 0;
+        if (huge) len = *rc::gen::resize(100, rc::gen::inRange(24000, 70001));
         for (int i = 0; i < len; i++) {
-            Op o; o.kind = *rc::gen::resize(100, rc::gen::element(0, 0, 0, 1, 2, 3)); o.tbl = 0; o.arg = 0;
+            Op o; o.kind = huge ? *rc::gen::resize(100, rc::gen::element(3, 3, 3, 0, 1, 2)) : *rc::gen::resize(100, rc::gen::element(0, 0, 0, 1, 2, 3)); o.tbl = 0; o.arg = 0;
             if (o.kind == 0) { o.tbl = *rc::gen::resize(100, rc::gen::inRange(0, nt)); o.val = *rc::gen::resize(100, rc::gen::inRange(0, (int)c.tbls[o.tbl].size() - 1)); }
             else if (o.kind == 1) { o.val = *rc::gen::inRange(0, 2); o.arg = *rc::gen::resize(100, rc::gen::element(1, 2, 127, 128, 129, 254, 255, *rc::gen::resize(100, rc::gen::inRange(1, 256)))); }
             else if (o.kind == 2) { o.val = *rc::gen::inRange(0, 2); o.arg = *rc::gen::resize(100, rc::gen::element(1, 2, 16384, 32766, 32767, *rc::gen::resize(100, rc::gen::inRange(1, 32768)))); }
-            else { o.arg = *rc::gen::resize(100, rc::gen::inRange(1, 25)); o.val = *rc::gen::resize(100, rc::gen::inRange(0, 1 << o.arg)); }
+            else { o.arg = huge ? 24 : *rc::gen::resize(100, rc::gen::inRange(1, 25)); o.val = *rc::gen::resize(100, rc::gen::inRange(0, 1 << o.arg)); }
             c.ops.push_back(o);
         }
         std::string e = check(c, true);
@@ -150,8 +155,8 @@ int main(int argc, char **argv) {
                     }
                 }
             }
-    printf("{\"generated_ok\":%d,\"cases\":%ld,\"nontrivial\":%ld,\"extreme_cdf\":%ld,\"carry_runs\":%ld,\"long_seqs\":%ld,\"exhaustive_cases\":%ld,\"exhaustive_failures\":%ld,\"samples\":[",
-           ok1 ? 1 : 0, g_cases, g_nontrivial, g_extreme, g_carry, g_long, ex, exfail);
+    printf("{\"generated_ok\":%d,\"cases\":%ld,\"nontrivial\":%ld,\"extreme_cdf\":%ld,\"carry_runs\":%ld,\"long_seqs\":%ld,\"beyond_initial_buffer\":%ld,\"exhaustive_cases\":%ld,\"exhaustive_failures\":%ld,\"samples\":[",
+           ok1 ? 1 : 0, g_cases, g_nontrivial, g_extreme, g_carry, g_long, g_grown, ex, exfail);
     for (size_t i = 0; i < g_samples.size(); i++) printf("%s%s", i ? "," : "", g_samples[i].c_str());
     printf("],\"keys\":[");
     { size_t i = 0; for (uint64_t k : g_keys) { if (i >= 30000) break; printf("%s\"%llx\"", i ? "," : "", (unsigned long long)k); i++; } }
